@@ -11,6 +11,10 @@ COMP = "robotools/liquidhandling/composition.py"
 UT = "robotools/utils.py"
 
 MUTANTS = [
+    dict(id="evo-trough-min-r-7", expect=["C08"], edits=[(EVU, "        return 1 + c * labware.virtual_rows + r", "        return 1 + c * labware.virtual_rows + min(r, 7)")]),
+    dict(id="fluent-row-mod-8", expect=["C08"], edits=[(FLU, "    r = labware.row_ids.index(row)", "    r = labware.row_ids.index(row) % 8")]),
+    dict(id="evo-nrows-for-troughs", expect=[], silent=["C08"], edits=[(EVU, "        return 1 + c * labware.virtual_rows + r", "        return 1 + c * labware.n_rows + r")]),
+    dict(id="evo-row-major", expect=["C08", "C01"], force=True, edits=[(EVU, "    return 1 + c * labware.n_rows + r", "    return 1 + r * labware.n_columns + c")]),
     dict(id="tip-ge8-is-t8", expect=["C10"], force=True, edits=[("robotools/evotools/types.py", "    elif tip_int == 8:", "    elif tip_int >= 8:")]),
     dict(id="tipmask-sum-no-set", expect=["C10"], force=True, edits=[(WU, "        tip = sum(set(tips))", "        tip = sum(tips)")]),
     dict(id="evo-arm-2", expect=["C13"], count=2, force=True, edits=[(EVC, "    if not arm == 0 and not arm == 1:", "    if not arm == 0 and not arm == 1 and not arm == 2:")]),
